@@ -43,20 +43,19 @@ PRONE = ["filt", "e", "cc", "h", "cons", "wgrid", "k", "g"]
 
 def cases(tier, seed):
     out = []
-    fam2 = family.enumerate_family(2)
     seen = set()
-    for fv in fam2:
-        dev = sum(1 for k in fv if fv[k] != family.BASE[k])
+    members, _ = e1.family_members(2)
+    for fv, dev in members:
         jits = [True, False] if (tier == "thorough" or dev <= 1) else [True]
         out.append({"id": e1.fv_id(fv), "fv": fv, "jits": jits, "dev": dev, "seed": seed, "tier": tier})
         seen.add(e1.fv_id(fv))
     if tier == "thorough":
-        feats = {k: family.FEATURES[k] for k in PRONE}
-        for fv in family.enumerate_family(3, features=feats):
+        members, _ = e1.family_members(3, {k: family.FEATURES[k] for k in PRONE})
+        for fv, dev in members:
             i = e1.fv_id(fv)
             if i not in seen:
                 seen.add(i)
-                out.append({"id": i, "fv": fv, "jits": [True], "dev": 3, "seed": seed, "tier": tier})
+                out.append({"id": i, "fv": fv, "jits": [True], "dev": dev, "seed": seed, "tier": tier})
     return out
 
 
